@@ -22,6 +22,7 @@ import (
 	"github.com/google/certificate-transparency-go/verifhook"
 
 	"verif/sim/kernel"
+	"verif/sim/lockrt"
 )
 
 type sideOp struct {
@@ -33,30 +34,30 @@ type sideOp struct {
 	panicked atomic.Value // string
 }
 
-const drvName = "drv"
+// lockSpecs: C17lock exists only in the binary built from the lockstep-rewritten tree (DESIGN §16).
+func lockSpecs() []kernel.Spec {
+	if !lockrt.Enabled {
+		return nil
+	}
+	return []kernel.Spec{{Prop: "C17lock", Mk: NewLock, Limits: kernel.Limits{MaxSteps: 1500, SettleSteps: 4000}}}
+}
 
 func (w *World) lockInit() {
 	if !w.lock {
-		installRT(nil)
+		lockrt.Install(nil)
 		return
 	}
-	t := w.s.T
-	w.rt = kernel.NewLockRuntime(w.s)
-	w.lockWeight = []int{4, 8, 16}[t.Intn(3)]
-	w.heldDen = []int{0, 1, 2, 4}[t.Intn(4)]
-	w.maxOps = t.Range(0, 6)
-	w.rt.Park = w.parkPolicy
-	w.rt.SetName(drvName) // what the driver goroutine spawns through the code under test descends from "drv"
-	installRT(w.rt)
+	w.ls = kernel.NewLockstep(w.s, true)
+	w.rt = w.ls.RT
+	w.maxOps = w.s.T.Range(0, 6)
+	w.ls.Ended = w.callEnded
+	lockrt.Install(w.rt)
 }
 
-// parkPolicy runs on goroutines of the code under test: no tape, only the seed and the content.
-func (w *World) parkPolicy(g, site, kind string) bool {
-	if g == drvName {
-		return false // the driver itself must never wait for the driver
-	}
+// callEnded runs on goroutines of the code under test: no tape, only the seed and the content.
+func (w *World) callEnded(root string) bool {
 	w.partyMu.Lock()
-	c := w.byParty[kernel.RootOf(g)]
+	c := w.byParty[root]
 	w.partyMu.Unlock()
 	if c != nil && c.ctx != nil && (c.ctx.Err() != nil || (c.Deadline > 0 && w.s.Now() >= c.StartAt+c.Deadline)) {
 		// (the deadline is judged by the fake clock, not by ctx.Err(): at the very instant it expires a
@@ -64,12 +65,9 @@ func (w *World) parkPolicy(g, site, kind string) bool {
 		// the caller's context has ended: what its goroutines still do is a tie inside the
 		// code under test (select between ctx.Done and work); they keep honouring the locks
 		// but are no longer scheduled by the driver
-		return false
+		return true
 	}
-	if kind == kernel.SeamHeld {
-		return w.heldDen > 0 && kernel.HashChoice(w.s.Seed, "held|"+site, w.heldDen) == 0
-	}
-	return true
+	return false
 }
 
 // name gives the calling goroutine (a party of the world) its lineage root.
@@ -96,10 +94,6 @@ func (w *World) maxRefreshing() int {
 	return 1
 }
 
-func isLockSeam(name string) bool {
-	return name == kernel.SeamLock || name == kernel.SeamRLock || name == kernel.SeamHeld
-}
-
 // heldCalls: the calls that have a goroutine standing at a lock seam, and the largest clock
 // advance that does not end the context of one of them (see parkPolicy: a context must not
 // end while the driver still holds one of the call's goroutines at a lock).
@@ -110,7 +104,7 @@ func (w *World) heldCalls(parked []*kernel.Parked) (map[string]bool, time.Durati
 	}
 	held := map[string]bool{}
 	for _, p := range parked {
-		if !isLockSeam(p.Name) {
+		if !kernel.IsLockSeam(p.Name) {
 			continue
 		}
 		root := kernel.RootOf(p.Party)
@@ -129,7 +123,7 @@ func (w *World) lockSetup() {
 	s := w.s
 	t := s.T
 	verifhook.Yield = nil // the lock seams of the races' state mutex stand where the Yield points are
-	s.Logf("lock: weight=%d held=1/%d ops<=%d", w.lockWeight, w.heldDen, w.maxOps)
+	s.Logf("%s ops<=%d", w.ls.Describe(), w.maxOps)
 	if !t.Chance(1, 2) {
 		return
 	}
@@ -255,10 +249,6 @@ func (w *World) sideOptions() []kernel.Option {
 
 // harvestOps: driver, at quiescence.
 func (w *World) harvestOps() {
-	if m, ok := w.rt.Misuse(); ok {
-		w.s.Violate("lock-misuse", "unlock-of-unlocked", "%s", m)
-		return
-	}
 	for _, o := range w.ops {
 		if o.checked || !o.done.Load() {
 			continue
